@@ -46,6 +46,10 @@ Theorem C15_ops_matches_iff : forall a b, ops_matches a b = true <->
 Proof. exact ops_matches_iff. Qed.
 Print Assumptions C15_ops_matches_iff.
 
+Theorem C15_ops_version_paired : forall ov sv, ops_pair_ok ov sv = true <-> (ov = 3 /\ sv = 4) \/ (ov = 6 /\ sv = 6).
+Proof. exact ops_pair_iff. Qed.
+Print Assumptions C15_ops_version_paired.
+
 Theorem C15_v6_primary_only_v6_subkeys : forall sv, subkey_version_ok 6 sv = true -> sv = 6.
 Proof. exact v6_primary_only_v6_subkeys. Qed.
 Print Assumptions C15_v6_primary_only_v6_subkeys.
